@@ -1,5 +1,5 @@
 import FimVerif.Proofs.Lemmas.TopoAtomic
-import FimVerif.Proofs.Lemmas.TopoInvFac
+import FimVerif.Proofs.Lemmas.TopoInvNamesOps
 /-!
 # C07 — models built through the topology API satisfy the published rules; views are exact
 
@@ -26,12 +26,16 @@ Proved here:
   add_interface is not used to make a ServicePort; a service constructor / composite that raises after its rollback handler
   ran has left the model unchanged - C09's subject, proved there for at most one interface).  add_component / add_storage
   are covered at every point where the non-atomic call can stop;
-* `inv_setProps`, `inv_unsetProp`, `inv_addNode` - the full `Inv`, name scopes included, for these calls;
+* `invN_op`, `invN_history_partial` - the same calls except rename keep `InvSN` = `InvS` together with the four name scopes no
+  creating call breaks (nodes, components of a node, services of a node/component, top-level services); the sibling-name guards
+  of the code (`name in self.components` ...) are read on the model through `kids_sub_childrenOf` / `sibling_free`;
+* `inv_setProps`, `inv_unsetProp`, `inv_addNode` - the full `Inv`, all six name scopes, for these calls;
 * `_counterexample` theorems for the conjuncts the unchanged code breaks (known findings): rename to an existing name,
   add_interface twice with one name, add_interface(ServicePort), add_link on a ServicePort, connect_interface deriving one
   name twice.
 NOT proved (oracle + correspondence only): "exactly one" (`InvS`) after the removing calls, disconnect_interface and
-remove_interface - that removals leave no orphan is C08's subject; the name scopes for every call but the three above.
+remove_interface - that removals leave no orphan is C08's subject; the Link and interface-of-a-service name scopes (the code
+breaks them: counterexamples below), every name scope under rename, the name scopes under removals.
 -/
 namespace FimVerif.C07
 open FimVerif FimVerif.M FimVerif.Topo FimVerif.Gen
@@ -381,6 +385,61 @@ theorem inv_history_from_empty (ops : List TopoOp) (hv : ValidS ops Topo.empty) 
 theorem invD_history_from_empty (ops : List TopoOp) (hv : ValidD ops Topo.empty) : InvD (run ops Topo.empty) :=
   invD_history_partial ops _ hv inv_empty.struct.down
 
+/-! ### the structural invariant together with the four name scopes no creating call breaks -/
+
+/-- `CoveredS` minus rename (it breaks every name scope: known finding) -/
+def CoveredN (s : Topo) : TopoOp → Prop
+  | .rename _ _ _ => False
+  | op => CoveredS s op
+instance (s : Topo) (op : TopoOp) : Decidable (CoveredN s op) := by cases op <;> unfold CoveredN <;> infer_instance
+
+def ValidN : List TopoOp → Topo → Prop
+  | [], _ => True
+  | op :: ops, s => CoveredN s op ∧ ValidN ops (step op s).2
+instance decValidN : (ops : List TopoOp) → (s : Topo) → Decidable (ValidN ops s)
+  | [], _ => isTrue trivial
+  | op :: ops, s => by
+      unfold ValidN
+      have := decValidN ops (step op s).2
+      infer_instance
+
+theorem invN_op (s : Topo) (op : TopoOp) (hc : CoveredN s op) (h : InvSN s) : InvSN (step op s).2 := by
+  cases op <;> simp only [CoveredN, CoveredS] at hc <;> simp only [step] <;> rw [state_bind_pure _ _ (fun _ _ => rfl)]
+  case addNode fl c a => exact invSN_addNode fl c a s hc h
+  case addComponent fl c p a => exact invSN_addComponent fl c p a s hc h
+  case addStorage fl c p n i pr => exact invSN_addStorage fl c p n i pr s hc h
+  case addService fl c a => exact invSN_addService fl c a s hc.1 hc.2 h
+  case nodeAddService fl c p a => exact invSN_nodeAddService fl c p a s hc.1 hc.2 h
+  case nsAddInterface fl c svc ca n i t p => exact invSN_nsAddInterface fl c svc ca n i t p s hc.1 hc.2.1 hc.2.2 h
+  case addLink fl c n i lt ifs t p =>
+    exact invSN_addLink fl c n i lt ifs t p s hc.1 (fun l hl => by have := hc.2; rw [hl] at this; exact this) h
+  case connect fl c svc ca i =>
+    cases i with
+    | bogus => exact h
+    | iface iid iname => exact invSN_connect fl c svc iid iname ca s hc.1 hc.2.1 hc.2.2.1 hc.2.2.2 h
+  case addFacility fl c n i st t np ifs kw => exact invSN_addFacility fl c n i st t np ifs kw s hc.1 hc.2 h
+  case addSwitch fl c n i st t np ports => exact invSN_addSwitch fl c n i st t np ports s hc.1 hc.2 h
+  case setProps i p => exact (preserves_setProps mapStable_invSN i p).h s h
+  case unsetProp i g => exact (preserves_unsetProp mapStable_invSN i g).h s h
+
+/-- PARTIAL (the Link and interface-of-a-service name scopes, rename and the removing calls are missing): `InvS` and the name scopes of nodes, components, services of a node/component and top-level services hold after
+every history of the covered creating calls -/
+theorem invN_history_partial (ops : List TopoOp) : ∀ s, ValidN ops s → InvSN s → InvSN (run ops s) := by
+  induction ops with
+  | nil => intro s _ h; exact h
+  | cons op ops ih => intro s hv h; exact ih _ hv.2 (invN_op s op hv.1 h)
+
+theorem invN_history_from_empty (ops : List TopoOp) (hv : ValidN ops Topo.empty) : InvSN (run ops Topo.empty) :=
+  invN_history_partial ops _ hv ⟨inv_empty.struct, inv_empty.names.core⟩
+
+/-- non-vacuity: node, component, service without interfaces, two connections, a link, a facility -/
+example : ValidN [.addNode .experiment 0 ⟨"n1", none, some "RENC", some "VM", []⟩,
+                  .addComponent .experiment 1 (.gen 0) ⟨"nic1", none, some "SmartNIC", some "ConnectX-6", none, none, none, []⟩,
+                  .addService .experiment 5 ⟨"s1", none, some "L2Bridge", none, none, [], [.iface (.gen 2) "nic1-p1"]⟩,
+                  .connect .experiment 8 (.gen 5) [] (.iface (.gen 3) "nic1-p2"),
+                  .addFacility .experiment 10 "fac" none (some "RENC") (some "VLAN") [] none [],
+                  .setProps (.gen 0) [.ok "Site" "UKY"]] Topo.empty := by decide
+
 /-! ### the full invariant, name scopes included, for the calls that cannot touch a name -/
 
 theorem inv_setProps (nid : Nid) (props : List PropArg) (s : Topo) (h : Inv s) : Inv (setProps nid props s).2 :=
@@ -425,7 +484,7 @@ example : CoveredS w2 (.addFacility .experiment 0 "fac" none (some "RENC") (some
 /-- ... a history over the larger alphabet with removals satisfies `ValidD` ... -/
 example : ValidD [.addNode .experiment 0 ⟨"n1", none, some "RENC", some "VM", []⟩,
                   .addComponent .experiment 1 (.gen 0) ⟨"nic1", none, some "SmartNIC", some "ConnectX-6", none, none, none, []⟩,
-                  .addService .experiment 5 ⟨"s1", none, some "L2Bridge", none, none, [], [.iface (.gen 3) "nic1-p1"]⟩,
+                  .addService .experiment 5 ⟨"s1", none, some "L2Bridge", none, none, [], [.iface (.gen 2) "nic1-p1"]⟩,
                   .removeLink "n1-nic1-p1-link", .removeComponent (.gen 0) "nic1", .removeNode "n1"] Topo.empty := by decide
 /-- ... and a covered add_component that expands to a component, its service and two interfaces (9 elements) -/
 example : CoveredS w2 (.addComponent .experiment 0 (.user "n") ⟨"nic1", none, some "SmartNIC", some "ConnectX-6", none, none, none, []⟩) ∧
